@@ -16,8 +16,9 @@ def base_images(ctx):
     out = []
     for flav in ([0, 1, 4, 5] if ctx.tier == "quick" else gen.FLAVOURS):
         tree = {b"big": [bytes(rng.randrange(256) for _ in range(997)) * 80, 0, b"comment"], b"small": [b"hello", 0, b""],
-                b"dir": {b"in1": [b"x" * 600, 0, b""], b"sub": {b"deep": [b"d", 0, b""]}}, b"emptydir": {}, b"lnk": ("link", (b"small",)), b"dl": ("link", (b"dir",))}
-        im = mkimage.Image(1760, flav, rng, policy="random")
+                b"dir": {b"in1": [b"x" * 600, 0, b""], b"sub": {b"deep": [b"d", 0, b""]}}, b"emptydir": {},
+                b"full": dict(((b"entry_%02d_sixteen" % i)[:16], [b"c%d" % i, 0, b"cm" if i == 10 else b""]) for i in range(11)), b"lnk": ("link", (b"small",)), b"dl": ("link", (b"dir",))}
+        im = mkimage.Image(1760, flav, rng, policy="random", pack_cache=True)
         data = im.build(tree)
         out.append((flav, 1760, data, "mkimage"))
     # a hardfile whose size needs exactly one bitmap page (4064 + 3 blocks): a second page pointer in the root is one too many
@@ -64,14 +65,18 @@ def run(ctx):
         # classes (kind of block, field, value, checksum repaired): every class gets a case before any gets a second one
         classes = {}
         for fld in fields:
-            vals = list(mutimg.VALUES32 if fld[2] == 4 else mutimg.VALUES8) + ([fld[0], n // 2, n - 1, n] if fld[2] == 4 else [])
+            vals = list(mutimg.VALUES32 if fld[2] == 4 else mutimg.VALUES8) + ([fld[0], n // 2, n - 1, n] if fld[2] == 4 else []) + mutimg.EXTRA.get((fld[0], fld[1]), [])
             for v in vals:
                 for fixs in (True, False):
                     classes.setdefault((fld[4], fname(fld), v if v not in (fld[0],) else "self", fixs), []).append((fld, v, fixs))
         order = sorted(classes, key=repr)
         rng.shuffle(order)
-        # checksum-repaired cases reach deeper: they come first
-        order.sort(key=lambda c: not c[3])
+        # checksum-repaired cases reach deeper: they come first; values computed from the image (record ends at the area edge ...) before all
+        targeted = set()
+        for fld in fields:
+            for v in mutimg.EXTRA.get((fld[0], fld[1]), []):
+                targeted.add((fld[4], fname(fld), v))
+        order.sort(key=lambda c: (not c[3], (c[0], c[1], c[2]) not in targeted))
         cases = []
         depth = 0
         while len(cases) < per_image and any(len(classes[c]) > depth for c in order):
